@@ -1,4 +1,5 @@
 mod gen;
+mod hist;
 mod pools;
 mod proj;
 mod rawtopics;
@@ -81,6 +82,32 @@ fn main() {
             }
             out.flush().unwrap();
             eprintln!("drive {}: {} cases", topic, written);
+        }
+        "replay-hist" => {
+            // vh replay-hist <histories.ndjson> <out.ndjson>: TLC-generated API histories through the real API
+            let inp = std::fs::File::open(&args[2]).expect("cases file");
+            let mut out = BufWriter::new(std::fs::File::create(&args[3]).expect("out file"));
+            let mut n = 0usize;
+            for line in std::io::BufReader::new(inp).lines() {
+                let line = line.unwrap();
+                if line.trim().is_empty() {
+                    continue;
+                }
+                let mut j: J = serde_json::from_str(&line).expect("history json");
+                let mut steps: Vec<J> = j["steps"].as_array().cloned().unwrap_or_default();
+                for s in steps.iter_mut() {
+                    if let Some(o) = s.as_object_mut() {
+                        o.remove("src");
+                        o.remove("ok");
+                    }
+                }
+                hist::run_history(&mut steps);
+                n += 1;
+                j["steps"] = J::Array(steps);
+                j["id"] = J::from(format!("gen-api-{:07}", n));
+                writeln!(out, "{}", j).unwrap();
+            }
+            eprintln!("replayed {} histories", n);
         }
         "child" => {
             // one case on stdin, its observation on stdout
